@@ -418,34 +418,43 @@ Definition skip_container (fuel : nat) (r : reader) : outcome reader :=
   skip_container_loop fuel r 0 SkNone 1%Z.
 
 (* ---- skip_unquoted_value ---- *)
-Fixpoint suv_scan (l : bytes) (ptr : nat) : option (bool * nat) :=
-  (* Some (true, i) = '{' at i ; Some (false, i) = other byte at i ; None = ran off the end *)
+(* Some (true, i) = '{' at i ; Some (false, i) = other byte at i ; None = ran off the end (with
+   the comment flag to carry across the refill) *)
+Fixpoint suv_scan (l : bytes) (ptr : nat) (in_comment : bool) : option (bool * nat) + bool :=
   match l with
-  | [] => None
-  | c :: l' => if b_is c 123 then Some (true, ptr)
-               else if is_ws c then suv_scan l' (S ptr)
-               else Some (false, ptr)
+  | [] => inr in_comment
+  | c :: l' =>
+      if in_comment then suv_scan l' (S ptr) (negb (b_is c 10))
+      else if b_is c 123 then inl (Some (true, ptr))
+      else if is_ws c then suv_scan l' (S ptr) false
+      else if b_is c 35 then suv_scan l' (S ptr) true
+      else inl (Some (false, ptr))
   end.
 
-Fixpoint skip_unquoted_value (fuel : nat) (r : reader) : outcome reader :=
+Fixpoint skip_unquoted_value_loop (fuel : nat) (r : reader) (in_comment : bool) : outcome reader :=
   match fuel with
   | O => OutOfFuel
   | S f =>
       let w := win (rbw r) in
-      let p0 := if Nat.leb 4 (length w) && N.eqb (le_word 4 w) 151587082 then 4 else 0 in
-      match suv_scan (skipn p0 w) p0 with
-      | Some (true, i) =>
+      let p0 := if negb in_comment && Nat.leb 4 (length w) && N.eqb (le_word 4 w) 151587082 then 4 else 0 in
+      match suv_scan (skipn p0 w) p0 in_comment with
+      | inl (Some (true, i)) =>
           match bw_advance (rbw r) (S i) with
           | Ok b => skip_container f (with_bw r b)
           | _ => OOB 7040%N
           end
-      | Some (false, _) => Ok r
-      | None =>
+      | inl (Some (false, i)) =>
+          match bw_advance (rbw r) i with
+          | Ok b => Ok (with_bw r b)
+          | _ => OOB 7042%N
+          end
+      | inl None => Ok r
+      | inr ic =>
           match bw_advance (rbw r) (length w) with
           | Ok b =>
               match bw_fill_buf b (rrd r) with
               | FillOk 0 b2 rd2 => Ok (mkreader b2 rd2 (rbom r))
-              | FillOk _ b2 rd2 => skip_unquoted_value f (mkreader b2 rd2 (rbom r))
+              | FillOk _ b2 rd2 => skip_unquoted_value_loop f (mkreader b2 rd2 (rbom r)) ic
               | FillIo _ _ => Err E_Io
               | FillFull _ _ => Err E_BufferFull
               end
@@ -453,3 +462,4 @@ Fixpoint skip_unquoted_value (fuel : nat) (r : reader) : outcome reader :=
           end
       end
   end.
+Definition skip_unquoted_value (fuel : nat) (r : reader) : outcome reader := skip_unquoted_value_loop fuel r false.
